@@ -1250,9 +1250,7 @@ func (r *sbRunner) execute(vecs []sbVector, alone bool, w *ndWriter) {
 		if ev.Events == nil {
 			ev.Events = []string{}
 		}
-		if len(ev.Events) > 0 || vecs[p.vec].Kind == "prog" || o.Out == "hang" || o.Out == "crash" {
-			ev.Text = strings.Join(p.lines, "\n")
-		}
+		ev.Text = strings.Join(p.lines, "\n")
 		ev.Detail = detail[k]
 		if o.Note != "" && (o.Out == "crash" || o.Out == "exit") {
 			ev.Detail = strings.TrimSpace(ev.Detail + " " + o.Note)
